@@ -7,11 +7,14 @@ import itertools
 from typing import Dict, List, Optional, Set, Tuple
 
 from ..astutil import (
-    call_name, calls_in, calls_named, dotted, name_stores, unparse, walk_local, walk_stmts,
+    call_name, calls_in, calls_named, dotted, name_stores, parent_map, test_atoms, unparse, walk_local, walk_stmts,
 )
 from ..evalx import Sym
 from ..oracles import load
 from ..report import Registry, sub, chain
+from ._helpers_rob_b1 import (
+    bind_args, bindings, expand_test, expanded_atoms, inline_helpers, resolve_alias, resolve_callee, resolved_dotted,
+)
 
 R = Registry(
     "C31",
@@ -59,22 +62,25 @@ ATOMS = ("post_update", "isdelete", "childisdelete")
 
 
 # ---------------------------------------------------------------------- symbolic nodes
-def _ctor(call: ast.AST) -> Optional[Tuple[str, Optional[bool], Optional[str]]]:
-    """(kind, flag, side) for a unitofwork action constructor call, else None."""
+def _ctor(call: ast.AST, resolve=None) -> Optional[Tuple[str, Optional[bool], Optional[str]]]:
+    """(kind, flag, side) for a unitofwork action constructor call, else None.  `resolve` maps an argument
+    expression to the expression it stands for (local aliases such as `base = self.mapper.primary_base_mapper`)."""
     if not isinstance(call, ast.Call):
         return None
     nm = (call_name(call) or "").rsplit(".", 1)[-1]
     if nm not in CTOR_KIND:
         return None
+    res = resolve or (lambda e: e)
     kind, flagpos = CTOR_KIND[nm]
     flag = None
     if flagpos is not None:
-        if len(call.args) <= flagpos or not isinstance(call.args[flagpos], ast.Constant):
+        fl = res(call.args[flagpos]) if len(call.args) > flagpos else next((res(k.value) for k in call.keywords if k.arg == "isdelete"), None)
+        if not isinstance(fl, ast.Constant):
             return (kind, None, None)
-        flag = bool(call.args[flagpos].value)
+        flag = bool(fl.value)
     side = None
     if len(call.args) > 1:
-        d = dotted(call.args[1]) or ""
+        d = dotted(res(call.args[1])) or ""
         if d.startswith("self.parent"):
             side = "parent"
         elif d.startswith("self.mapper"):
@@ -82,8 +88,8 @@ def _ctor(call: ast.AST) -> Optional[Tuple[str, Optional[bool], Optional[str]]]:
     return (kind, flag, side)
 
 
-def _aggregate_role(call: ast.AST) -> Optional[str]:
-    c = _ctor(call)
+def _aggregate_role(call: ast.AST, resolve=None) -> Optional[str]:
+    c = _ctor(call, resolve)
     if c is None:
         return None
     kind, flag, side = c
@@ -104,93 +110,180 @@ def _aggregate_role(call: ast.AST) -> Optional[str]:
     return None
 
 
+class _Frame:
+    """one activation of the interpreter: the function being read, its action roles, boolean atoms and aliases"""
+
+    def __init__(self, f, env, atom_names, aliases=None):
+        self.f = f
+        self.env: Dict[str, str] = dict(env)              # local name -> action role
+        self.atom_names: Dict[str, str] = dict(atom_names)  # expression text -> canonical atom
+        self.aliases: Dict[str, ast.AST] = dict(aliases or {})  # local name -> expression it stands for
+
+
 class _Interp:
     """Evaluates a dependency-registering method under one truth assignment of its boolean atoms and
-    collects the edges passed to `uow.dependencies.update([...])` / `.add((a, b))`."""
+    collects the edges passed to `uow.dependencies.update([...])` / `.add((a, b))`.  Shape independent:
+    if/else either way round, guard clauses with `return`, local aliases (of sub-expressions, of the edge set, of
+    the edge list, of a branch condition) and statement-level helper methods are followed."""
+
+    MAX_DEPTH = 3
 
     def __init__(self, ctx, f, env: Dict[str, str], atom_names: Dict[str, str]):
         self.ctx = ctx
         self.f = f
         self.env0 = dict(env)
-        self.atom_names = atom_names  # expression text -> canonical atom
+        self.atom_names = atom_names
         self.used_atoms: Set[str] = set()
-        self._scan_atoms(f.node.body)
+        # dry run over both outcomes of every branch: which atoms decide
+        self.scanning = True
+        self.edges = []
+        self._block(f.node.body, None, _Frame(f, env, atom_names), 0)
+        self.scanning = False
 
-    def _scan_atoms(self, body):
-        for st in walk_stmts(body):
-            if isinstance(st, ast.If):
-                self._atoms_of(st.test)
+    # -- conditions
+    def _resolve(self, e, fr: _Frame, depth=4):
+        while depth > 0 and isinstance(e, ast.Name) and e.id in fr.aliases:
+            e = fr.aliases[e.id]
+            depth -= 1
+        return e
 
-    def _atoms_of(self, t):
+    def _truth(self, t, asg, fr: _Frame):
+        """truth of a branch condition; while scanning: None, after recording the atoms"""
+        t = self._resolve(t, fr)
         if isinstance(t, ast.UnaryOp) and isinstance(t.op, ast.Not):
-            return self._atoms_of(t.operand)
+            v = self._truth(t.operand, asg, fr)
+            return None if v is None else not v
         if isinstance(t, ast.BoolOp):
-            for v in t.values:
-                self._atoms_of(v)
-            return
-        txt = unparse(t)
-        self.ctx.require(
-            txt in self.atom_names,
-            f"{self.f.key}: branch condition `{txt}` is not one of the known boolean atoms {sorted(self.atom_names)}",
-        )
-        self.used_atoms.add(self.atom_names[txt])
-
-    def _truth(self, t, asg) -> bool:
-        if isinstance(t, ast.UnaryOp) and isinstance(t.op, ast.Not):
-            return not self._truth(t.operand, asg)
-        if isinstance(t, ast.BoolOp):
-            vals = [self._truth(v, asg) for v in t.values]
+            vals = [self._truth(v, asg, fr) for v in t.values]
+            if None in vals:
+                return None
             return all(vals) if isinstance(t.op, ast.And) else any(vals)
-        return asg[self.atom_names[unparse(t)]]
+        if isinstance(t, ast.Constant) and isinstance(t.value, bool):
+            return t.value
+        txt = unparse(t)
+        flip = False
+        if isinstance(t, ast.Compare) and len(t.ops) == 1 and isinstance(t.comparators[0], ast.Constant) \
+                and isinstance(t.comparators[0].value, bool) and isinstance(t.ops[0], (ast.Is, ast.IsNot, ast.Eq, ast.NotEq)):
+            # `x is True` / `x == False` spellings of a boolean atom
+            txt = unparse(self._resolve(t.left, fr))
+            flip = isinstance(t.ops[0], (ast.Is, ast.Eq)) != t.comparators[0].value
+        self.ctx.require(
+            txt in fr.atom_names,
+            f"{fr.f.key}: branch condition `{txt}` is not one of the known boolean atoms {sorted(fr.atom_names)}",
+        )
+        atom = fr.atom_names[txt]
+        if self.scanning:
+            self.used_atoms.add(atom)
+            return None
+        return asg[atom] != flip
 
     def run(self, asg: Dict[str, bool]) -> List[Tuple[str, str]]:
-        self.env = dict(self.env0)
-        self.edges: List[Tuple[str, str]] = []
-        self._block(self.f.node.body, asg)
+        self.edges = []
+        self._block(self.f.node.body, asg, _Frame(self.f, self.env0, self.atom_names), 0)
         return self.edges
 
-    def _mentions_deps(self, st) -> bool:
-        return any(isinstance(n, ast.Attribute) and n.attr == "dependencies" for n in ast.walk(st))
+    # -- statements
+    def _is_deps(self, e, fr: _Frame) -> bool:
+        e = self._resolve(e, fr)
+        return isinstance(e, ast.Attribute) and e.attr == "dependencies"
 
-    def _block(self, body, asg):
+    def _mentions_deps(self, st, fr: _Frame) -> bool:
+        for n in ast.walk(st):
+            if isinstance(n, ast.Attribute) and n.attr == "dependencies":
+                return True
+            if isinstance(n, ast.Name) and isinstance(n.ctx, ast.Load) and n.id in fr.aliases and self._is_deps(n, fr):
+                return True
+        return False
+
+    def _pairs(self, arg, fr: _Frame):
+        arg = self._resolve(arg, fr)
+        self.ctx.require(isinstance(arg, (ast.List, ast.Tuple, ast.Set)),
+                         f"{fr.f.key}: dependencies.update() argument is not a literal list of pairs")
+        return arg.elts
+
+    def _block(self, body, asg, fr: _Frame, depth: int) -> bool:
+        """interpret a statement list; True when the function returned"""
         for st in body:
             if isinstance(st, ast.If):
-                self._block(st.body if self._truth(st.test, asg) else st.orelse, asg)
-                continue
-            if isinstance(st, (ast.Assign, ast.AnnAssign)) and isinstance(getattr(st, "value", None), ast.Call):
-                role = _aggregate_role(st.value)
-                tgts = st.targets if isinstance(st, ast.Assign) else [st.target]
-                if role is not None and len(tgts) == 1 and isinstance(tgts[0], ast.Name):
-                    self.env[tgts[0].id] = role
+                v = self._truth(st.test, asg, fr)
+                if v is None:   # scanning: both arms (on copies of the frame state)
+                    saved = (dict(fr.env), dict(fr.aliases))
+                    r1 = self._block(st.body, asg, fr, depth)
+                    env1, al1 = fr.env, fr.aliases
+                    fr.env, fr.aliases = dict(saved[0]), dict(saved[1])
+                    r2 = self._block(st.orelse, asg, fr, depth)
+                    fr.env = {**env1, **fr.env}
+                    fr.aliases = {**al1, **fr.aliases}
+                    if r1 and r2:
+                        return True
                     continue
-            if not self._mentions_deps(st):
+                if self._block(st.body if v else st.orelse, asg, fr, depth):
+                    return True
+                continue
+            if isinstance(st, ast.Return):
+                return True
+            if isinstance(st, ast.Pass) or (isinstance(st, ast.Expr) and isinstance(st.value, ast.Constant)):
+                continue
+            if isinstance(st, (ast.Assign, ast.AnnAssign)) and getattr(st, "value", None) is not None:
+                tgts = st.targets if isinstance(st, ast.Assign) else [st.target]
+                if len(tgts) == 1 and isinstance(tgts[0], ast.Name):
+                    role = _aggregate_role(st.value, lambda e: self._resolve(e, fr))
+                    if role is not None:
+                        fr.env[tgts[0].id] = role
+                        fr.aliases.pop(tgts[0].id, None)
+                    elif isinstance(st.value, ast.Name) and st.value.id in fr.env and st.value.id not in fr.aliases:
+                        fr.env[tgts[0].id] = fr.env[st.value.id]      # second name for an action
+                    else:
+                        fr.aliases[tgts[0].id] = st.value
+                        fr.env.pop(tgts[0].id, None)
+                    continue
+            if isinstance(st, ast.Expr) and isinstance(st.value, ast.Call) and depth < self.MAX_DEPTH:
+                callee = resolve_callee(self.ctx, fr.f, st.value)
+                if callee is not None and callee.module is fr.f.module and callee.node is not fr.f.node \
+                        and any(isinstance(n, ast.Attribute) and n.attr == "dependencies" for n in ast.walk(callee.node)):
+                    m = bind_args(st.value, callee)
+                    self.ctx.require(m is not None, f"{fr.f.key}: call of helper {callee.name}() not understood")
+                    self.ctx.functions_analysed.add(callee.key)
+                    env, atoms, aliases = {}, {k: v for k, v in fr.atom_names.items() if k.startswith("self.")}, {}
+                    for p_, a_ in m.items():
+                        a_r = self._resolve(a_, fr)
+                        if isinstance(a_, ast.Name) and a_.id in fr.env:
+                            env[p_] = fr.env[a_.id]
+                        elif unparse(a_r) in fr.atom_names:
+                            atoms[p_] = fr.atom_names[unparse(a_r)]
+                        elif _aggregate_role(a_r, lambda e: self._resolve(e, fr)) is not None:
+                            env[p_] = _aggregate_role(a_r, lambda e: self._resolve(e, fr))
+                        else:
+                            aliases[p_] = a_r
+                    self._block(callee.node.body, asg, _Frame(callee, env, atoms, aliases), depth + 1)
+                    continue
+            if not self._mentions_deps(st, fr):
                 continue  # logging, asserts, unrelated statements
             self.ctx.require(
-                isinstance(st, ast.Expr) and isinstance(st.value, ast.Call),
-                f"{self.f.key}: statement touching uow.dependencies is not a plain call: `{unparse(st)[:80]}`",
+                isinstance(st, ast.Expr) and isinstance(st.value, ast.Call) and isinstance(st.value.func, ast.Attribute),
+                f"{fr.f.key}: statement touching uow.dependencies is not a plain call: `{unparse(st)[:80]}`",
             )
             c = st.value
-            nm = call_name(c) or ""
-            if nm.endswith("dependencies.update"):
-                self.ctx.require(
-                    len(c.args) == 1 and isinstance(c.args[0], (ast.List, ast.Tuple, ast.Set)),
-                    f"{self.f.key}: dependencies.update() argument is not a literal list of pairs",
-                )
-                pairs = c.args[0].elts
-            elif nm.endswith("dependencies.add"):
-                self.ctx.require(len(c.args) == 1, f"{self.f.key}: dependencies.add() with {len(c.args)} args")
+            self.ctx.require(self._is_deps(c.func.value, fr), f"{fr.f.key}: unknown operation on uow.dependencies: `{unparse(c.func)}`")
+            if c.func.attr == "update":
+                self.ctx.require(len(c.args) == 1, f"{fr.f.key}: dependencies.update() with {len(c.args)} args")
+                pairs = self._pairs(c.args[0], fr)
+            elif c.func.attr == "add":
+                self.ctx.require(len(c.args) == 1, f"{fr.f.key}: dependencies.add() with {len(c.args)} args")
                 pairs = [c.args[0]]
             else:
-                self.ctx.error(f"{self.f.key}: unknown operation on uow.dependencies: `{nm}`")
+                self.ctx.error(f"{fr.f.key}: unknown operation on uow.dependencies: `{unparse(c.func)}`")
             for p in pairs:
+                p = self._resolve(p, fr)
                 self.ctx.require(
                     isinstance(p, ast.Tuple) and len(p.elts) == 2 and all(isinstance(e, ast.Name) for e in p.elts),
-                    f"{self.f.key}: dependency edge `{unparse(p)}` is not a pair of local names",
+                    f"{fr.f.key}: dependency edge `{unparse(p)}` is not a pair of local names",
                 )
                 a, b = p.elts
                 for e in (a, b):
-                    self.ctx.require(e.id in self.env, f"{self.f.key}: edge endpoint `{e.id}` has no known action role")
-                self.edges.append((self.env[a.id], self.env[b.id]))
+                    self.ctx.require(e.id in fr.env, f"{fr.f.key}: edge endpoint `{e.id}` has no known action role")
+                self.edges.append((fr.env[a.id], fr.env[b.id]))
+        return False
 
 
 def _closure(edges) -> Dict[str, Set[str]]:
@@ -510,9 +603,174 @@ def r2(ctx):
 
 
 # ---------------------------------------------------------------------- execution order
+_COPY = ("list", "tuple", "set", "frozenset", "sorted")
+
+
 def _sub_is(node, name: str, idx: int) -> bool:
     return (isinstance(node, ast.Subscript) and isinstance(node.value, ast.Name) and node.value.id == name
             and isinstance(node.slice, ast.Constant) and node.slice.value == idx)
+
+
+def _tv(expr, val_of):
+    """three-valued truth of a condition: True / False / None (unknown) given `val_of(atom expr)`"""
+    if isinstance(expr, ast.UnaryOp) and isinstance(expr.op, ast.Not):
+        v = _tv(expr.operand, val_of)
+        return None if v is None else not v
+    if isinstance(expr, ast.BoolOp):
+        vals = [_tv(v, val_of) for v in expr.values]
+        if isinstance(expr.op, ast.And):
+            return False if any(v is False for v in vals) else (True if all(v is True for v in vals) else None)
+        return True if any(v is True for v in vals) else (False if all(v is False for v in vals) else None)
+    return val_of(expr)
+
+
+class _Rewrite:
+    """The loop of _generate_actions (helpers inlined) that rewrites a snapshot of self.dependencies: endpoints of
+    the visited edge, removal / per-object replacement sites, and truth of the cycle-membership conditions."""
+
+    def __init__(self, ctx, ga, g, pm, binds, loop, cyc_names, conv):
+        self.ctx, self.ga, self.g, self.pm, self.binds = ctx, ga, g, pm, binds
+        self.lp, self.cyc, self.conv = loop, cyc_names, conv
+        self.ev = loop.target.id if isinstance(loop.target, ast.Name) else None
+        self.ends: Dict[str, int] = {}
+        t = loop.target
+        if isinstance(t, ast.Tuple) and len(t.elts) == 2 and all(isinstance(e, ast.Name) for e in t.elts):
+            self.ends = {t.elts[0].id: 0, t.elts[1].id: 1}
+        if self.ev is not None:
+            for st in ast.walk(loop):
+                if isinstance(st, ast.Assign) and len(st.targets) == 1 and isinstance(st.value, ast.Name) and st.value.id == self.ev \
+                        and isinstance(st.targets[0], ast.Tuple) and len(st.targets[0].elts) == 2 \
+                        and all(isinstance(e, ast.Name) for e in st.targets[0].elts):
+                    a, b = st.targets[0].elts
+                    self.ends.update({a.id: 0, b.id: 1})
+                elif isinstance(st, ast.Assign) and len(st.targets) == 1 and isinstance(st.targets[0], ast.Name) \
+                        and (_sub_is(st.value, self.ev, 0) or _sub_is(st.value, self.ev, 1)):
+                    self.ends[st.targets[0].id] = st.value.slice.value
+
+    def is_deps(self, e) -> bool:
+        return resolved_dotted(self.ga.node, e, self.binds) == "self.dependencies"
+
+    def is_cyc(self, e) -> bool:
+        return (dotted(e) or "") in self.cyc
+
+    def end(self, e) -> Optional[int]:
+        if self.ev is not None:
+            for i in (0, 1):
+                if _sub_is(e, self.ev, i):
+                    return i
+        if isinstance(e, ast.Name):
+            return self.ends.get(e.id)
+        return None
+
+    def whole(self, e) -> bool:
+        if isinstance(e, ast.Name) and e.id == self.ev:
+            return True
+        if isinstance(e, ast.Call) and call_name(e) in ("tuple", "set", "frozenset") and len(e.args) == 1:
+            return self.whole(e.args[0])
+        return isinstance(e, (ast.Tuple, ast.Set, ast.List)) and len(e.elts) == 2 and {self.end(x) for x in e.elts} == {0, 1} \
+            and (isinstance(e, ast.Set) or self.end(e.elts[0]) == 0)
+
+    def atom(self, e, A) -> Optional[bool]:
+        """value of an atomic condition when endpoint i of the visited edge is a cycle member iff A[i]"""
+        if isinstance(e, ast.Compare) and len(e.ops) == 1 and isinstance(e.ops[0], (ast.In, ast.NotIn)) and self.is_cyc(e.comparators[0]):
+            i = self.end(e.left)
+            if i is not None:
+                return A[i] if isinstance(e.ops[0], ast.In) else not A[i]
+        if isinstance(e, ast.Call) and isinstance(e.func, ast.Attribute) and len(e.args) == 1:
+            if e.func.attr == "issuperset" and self.is_cyc(e.func.value) and self.whole(e.args[0]):
+                return A[0] and A[1]
+            if e.func.attr == "issubset" and self.is_cyc(e.args[0]) and self.whole(e.func.value):
+                return A[0] and A[1]
+        return None
+
+    def edge_ok(self, A):
+        from ..cfg import no_exc
+
+        def ok(a, b, lab):
+            if not no_exc(a, b, lab):
+                return False
+            n = self.g.nodes[a]
+            if n.kind == "test" and lab in ("true", "false") and isinstance(n.stmt, (ast.If, ast.While)):
+                v = _tv(expand_test(self.ctx, self.ga, n.stmt.test, self.binds), lambda e: self.atom(e, A))
+                if v is not None and v != (lab == "true"):
+                    return False
+            return True
+        return ok
+
+    def head(self) -> int:
+        return self.g.nodes_for(self.lp)[0]
+
+    def starts(self) -> List[int]:
+        return [b for b, lab in self.g.succ[self.head()] if lab == "true"]
+
+    def remove_nodes(self) -> List[int]:
+        out = []
+        for c in calls_in(self.lp):
+            if isinstance(c.func, ast.Attribute) and c.func.attr in ("remove", "discard") and self.is_deps(c.func.value) \
+                    and len(c.args) == 1 and self.whole(c.args[0]):
+                out.extend(self.g.nodes_containing(c))
+        return sorted(set(out))
+
+    def add_sites(self):
+        """[(side i, CFG node ids)] of `deps.add((per_object, other_end))` for per_object in conv[end i]` (loop or
+        comprehension handed to deps.update)"""
+        out = []
+        for c in calls_in(self.lp):
+            if not (isinstance(c.func, ast.Attribute) and self.is_deps(c.func.value) and len(c.args) == 1):
+                continue
+            tup = src = var = None
+            if c.func.attr == "add" and isinstance(c.args[0], ast.Tuple) and len(c.args[0].elts) == 2:
+                tup = c.args[0]
+                for anc in _ancestors(self.pm, c):
+                    if anc is self.lp:
+                        break
+                    if isinstance(anc, ast.For) and isinstance(anc.target, ast.Name):
+                        src, var = anc.iter, anc.target.id
+                        break
+            elif c.func.attr == "update" and isinstance(c.args[0], (ast.GeneratorExp, ast.ListComp, ast.SetComp)) \
+                    and len(c.args[0].generators) == 1 and not c.args[0].generators[0].ifs \
+                    and isinstance(c.args[0].elt, ast.Tuple) and len(c.args[0].elt.elts) == 2 \
+                    and isinstance(c.args[0].generators[0].target, ast.Name):
+                tup, src, var = c.args[0].elt, c.args[0].generators[0].iter, c.args[0].generators[0].target.id
+            if tup is None or src is None:
+                continue
+            src = resolve_alias(self.ga.node, src, self.binds)
+            if not (isinstance(src, ast.Subscript) and isinstance(src.value, ast.Name) and src.value.id == self.conv):
+                continue
+            i = self.end(src.slice)
+            if i is None:
+                continue
+            if isinstance(tup.elts[i], ast.Name) and tup.elts[i].id == var and self.end(tup.elts[1 - i]) == 1 - i:
+                out.append((i, self.g.nodes_containing(c)))
+        return out
+
+
+def _ancestors(pm, node):
+    cur = pm.get(node)
+    while cur is not None:
+        yield cur
+        cur = pm.get(cur)
+
+
+def _feeds(fnode, expr, binds, depth=3):
+    """expressions a value is computed from: the expression, what its local names are bound to, and the iterables
+    of loops that fill a local collection (`acc = set(); for x in SRC: acc.add(x)`)"""
+    out, frontier, seen = [expr], [expr], set()
+    for _ in range(depth):
+        nxt = []
+        for e in frontier:
+            for x in ast.walk(e):
+                if isinstance(x, ast.Name) and x.id not in seen:
+                    seen.add(x.id)
+                    nxt.extend(v for v, st in binds.get(x.id, []) if v is not None)
+                    for lp in walk_local(fnode):
+                        if isinstance(lp, ast.For) and any(
+                                isinstance(c.func, ast.Attribute) and c.func.attr in ("add", "append", "update", "extend")
+                                and isinstance(c.func.value, ast.Name) and c.func.value.id == x.id for c in calls_in(lp)):
+                            nxt.append(lp.iter)
+        out.extend(nxt)
+        frontier = nxt
+    return out
 
 
 @R.rule("C31-R3", floor=8, template="T-FLOW",
@@ -521,107 +779,152 @@ def _sub_is(node, name: str, idx: int) -> bool:
              "same edge set, converts exactly the cycle members to per-object actions and rewrites edges with one "
              "end in a cycle onto them")
 def r3(ctx):
-    ex = ctx.func(f"{UOW}::UOWTransaction.execute")
-    ga = ctx.func(f"{UOW}::UOWTransaction._generate_actions")
+    ex0 = ctx.func(f"{UOW}::UOWTransaction.execute")
+    ga0 = ctx.func(f"{UOW}::UOWTransaction._generate_actions")
+    # extract-method normalisation: private helpers of the class called at statement level are read in place
+    ex = inline_helpers(ctx, ex0, skip=("_generate_actions",))
+    ga = inline_helpers(ctx, ga0)
+    exb, gab = bindings(ex.node), bindings(ga.node)
     # (a) actions flow from _generate_actions to the sort call
     derived: Set[str] = set()
-    for n, v, st in sorted(name_stores(ex.node), key=lambda t: t[2].lineno):
+    for n, v, st in sorted(name_stores(ex.node), key=lambda t: (t[2].lineno, t[2].col_offset)):
         if v is None:
             continue
-        if calls_named(v, "_generate_actions"):
+        if isinstance(v, ast.Call) and (call_name(v) or "").rsplit(".", 1)[-1] == "_generate_actions":
             derived.add(n)
-        elif isinstance(v, ast.Call) and (call_name(v) or "") in ("sorted", "list", "tuple") and v.args and isinstance(v.args[0], ast.Name) and v.args[0].id in derived:
+        elif isinstance(v, ast.Call) and (call_name(v) or "") in _COPY and v.args and isinstance(v.args[0], ast.Name) and v.args[0].id in derived:
+            derived.add(n)
+        elif isinstance(v, ast.Name) and v.id in derived:
             derived.add(n)
     ctx.require(derived, "execute() does not bind the result of self._generate_actions()")
-    sorts = [c for c in calls_in(ex.node) if (call_name(c) or "").rsplit(".", 1)[-1] in ("sort", "sort_as_subsets")
-             and (call_name(c) or "").startswith("topological.")]
+
+    def _topo(c):
+        nm = call_name(c) or ""
+        short = nm.rsplit(".", 1)[-1]
+        if short not in ("sort", "sort_as_subsets"):
+            return None
+        if nm.startswith("topological."):
+            return short
+        r = ctx.index.resolve(ex.module, nm) if "()" not in nm else None
+        return short if getattr(getattr(r, "module", None), "relpath", None) == "util/topological.py" else None
+
+    sorts = [c for c in calls_in(ex.node) if _topo(c)]
     ctx.require(sorts, "execute() has no topological.sort / sort_as_subsets call")
-    pm = ex.module.parents()
+    pm = parent_map(ex.node)
     for c in sorts:
-        short = call_name(c).rsplit(".", 1)[-1]
-        ok_args = (len(c.args) == 2 and dotted(c.args[0]) == "self.dependencies"
+        short = _topo(c)
+        ok_args = (len(c.args) == 2 and not c.keywords and resolved_dotted(ex.node, c.args[0], exb) == "self.dependencies"
                    and isinstance(c.args[1], ast.Name) and c.args[1].id in derived)
-        # the sort result is iterated directly by a for loop whose body executes the element
+        # the sort result is iterated by a for loop (directly, or through a local bound to it) whose body executes the element
         par = pm.get(c)
-        loop_ok = isinstance(par, ast.For) and par.iter is c
-        runs = False
-        if loop_ok:
-            runs = any((call_name(x) or "").rsplit(".", 1)[-1] in ("execute", "execute_aggregate") for x in calls_in(par))
-        ctx.check(ok_args and loop_ok and runs, f"{ex.key}:{short}",
+        loops = []
+        if isinstance(par, ast.For) and par.iter is c:
+            loops = [par]
+        elif isinstance(par, ast.Assign) and par.value is c and len(par.targets) == 1 and isinstance(par.targets[0], ast.Name) \
+                and len(exb.get(par.targets[0].id, [])) == 1:
+            loops = [n for n in walk_local(ex.node) if isinstance(n, ast.For) and isinstance(n.iter, ast.Name) and n.iter.id == par.targets[0].id]
+        runs = bool(loops) and all(
+            any((call_name(x) or "").rsplit(".", 1)[-1] in ("execute", "execute_aggregate") for x in calls_in(lp)) for lp in loops)
+        ctx.check(ok_args and runs, f"{ex0.key}:{short}",
                   f"topological.{short} is not applied to (self.dependencies, actions from _generate_actions) and executed in iteration order",
-                  f"for x in topological.{short}(self.dependencies, <generated actions>): x.execute*()", ex.loc)
+                  f"for x in topological.{short}(self.dependencies, <generated actions>): x.execute*()", ex0.loc)
     # (b) the subset form is used exactly when there are cycles
-    g = ctx.cfg(ex)
+    g = ctx.cfg(ex.node)
     want = {"sort_as_subsets": True, "sort": False}
     bad = []
     for c in sorts:
-        short = call_name(c).rsplit(".", 1)[-1]
+        short = _topo(c)
         for nid in g.nodes_containing(c):
-            guards = [(unparse(t), pol) for t, pol in g.edge_guards(nid)]
-            if ("self.cycles", want[short]) not in guards:
-                bad.append(f"{short} guarded by {guards}")
-    ctx.check(not bad and {call_name(c).rsplit('.', 1)[-1] for c in sorts} == set(want), f"{ex.key}:cycles-guard",
+            atoms = expanded_atoms(ctx, ex, g.edge_guards(nid), exb)
+            if not any(pol == want[short] and a.replace(" ", "") in ("self.cycles", "len(self.cycles)", "len(self.cycles)>0", "bool(self.cycles)")
+                       for a, pol in atoms):
+                bad.append(f"{short} guarded by {atoms}")
+    ctx.check(not bad and {_topo(c) for c in sorts} == set(want), f"{ex0.key}:cycles-guard",
               f"choice between sort and sort_as_subsets is not made on self.cycles: {bad}",
-              "sort_as_subsets iff self.cycles", ex.loc)
+              "sort_as_subsets iff self.cycles", ex0.loc)
     # (c) cycles computed over the same edge set and stored
     fc = calls_named(ga.node, "find_cycles")
     ctx.require(len(fc) == 1, "_generate_actions does not call topological.find_cycles once")
     fcall = fc[0]
-    arg_ok = len(fcall.args) == 2 and dotted(fcall.args[0]) == "self.dependencies" and "self.postsort_actions" in unparse(fcall.args[1])
-    stored = None
-    cyc_local = None
-    for st in walk_stmts(ga.node.body):
-        if isinstance(st, ast.Assign) and st.value is fcall:
-            names = [dotted(t) for t in st.targets]
-            stored = "self.cycles" in names
-            loc = [t.id for t in st.targets if isinstance(t, ast.Name)]
-            cyc_local = loc[0] if loc else None
-    ctx.check(arg_ok and bool(stored), f"{ga.key}:find-cycles",
+    arg_ok = (len(fcall.args) == 2 and resolved_dotted(ga.node, fcall.args[0], gab) == "self.dependencies"
+              and any("self.postsort_actions" in unparse(e) for e in _feeds(ga.node, fcall.args[1], gab)))
+    cyc_names: Set[str] = set()
+    changed = True
+    while changed:
+        changed = False
+        for st in walk_stmts(ga.node.body):
+            if isinstance(st, ast.Assign) and (st.value is fcall or (dotted(st.value) or "") in cyc_names):
+                for t in st.targets:
+                    d = dotted(t)
+                    if d and d not in cyc_names:
+                        cyc_names.add(d)
+                        changed = True
+    stored = "self.cycles" in cyc_names
+    # names that may be rebound to something else are not reliable names of the cycle set
+    cyc_names = {n for n in cyc_names if "." in n or len(gab.get(n, [])) == 1}
+    ctx.check(arg_ok and bool(stored), f"{ga0.key}:find-cycles",
               "cycles are not computed by find_cycles(self.dependencies, postsort actions) and stored on self.cycles",
-              "self.cycles = find_cycles(self.dependencies, postsort actions)", ga.loc)
-    cyc_names = {"self.cycles"} | ({cyc_local} if cyc_local else set())
-    # (d) conversion: per_state_flush_actions for exactly the members of cycles
+              "self.cycles = find_cycles(self.dependencies, postsort actions)", ga0.loc)
+    cyc_names |= {"self.cycles"}
+    # (d) conversion: per_state_flush_actions for exactly the members of cycles (dict comprehension, or a loop
+    # filling a dict: `for rec in cycles: convert[rec] = set(rec.per_state_flush_actions(self))`)
     conv = None
     for n, v, st in name_stores(ga.node):
-        if isinstance(v, ast.DictComp) and calls_named(v.value, "per_state_flush_actions"):
+        if isinstance(v, ast.DictComp) and calls_named(v.value, "per_state_flush_actions") and len(v.generators) == 1:
             gen = v.generators[0]
-            if unparse(gen.iter) in cyc_names and not gen.ifs and unparse(v.key) == unparse(gen.target):
+            if (dotted(gen.iter) or "") in cyc_names and not gen.ifs and unparse(v.key) == unparse(gen.target) \
+                    and any(unparse(c.func.value) == unparse(gen.target) for c in calls_named(v.value, "per_state_flush_actions")):
                 conv = n
-    ctx.check(conv is not None, f"{ga.key}:convert",
+    g_ga = ctx.cfg(ga.node)
+    for lp_ in walk_local(ga.node):
+        if not (isinstance(lp_, ast.For) and isinstance(lp_.target, ast.Name) and (dotted(lp_.iter) or "") in cyc_names):
+            continue
+        for st in lp_.body:   # directly in the body: performed for every member
+            if isinstance(st, ast.Assign) and len(st.targets) == 1 and isinstance(st.targets[0], ast.Subscript) \
+                    and isinstance(st.targets[0].value, ast.Name) and unparse(st.targets[0].slice) == lp_.target.id \
+                    and any(unparse(c.func.value) == lp_.target.id for c in calls_named(st.value, "per_state_flush_actions")):
+                head_ = g_ga.nodes_for(lp_)[0]
+                body_start = [b for b, lab in g_ga.succ[head_] if lab == "true"]
+                from ..cfg import no_exc
+                if g_ga.must_pass(body_start, [head_], g_ga.nodes_for(st), edge_ok=no_exc) is None:
+                    conv = st.targets[0].value.id
+    ctx.check(conv is not None, f"{ga0.key}:convert",
               "per-object actions are not generated for exactly the members of `cycles`",
-              "convert = {rec: per_state_flush_actions for rec in cycles}", ga.loc)
+              "convert = {rec: per_state_flush_actions for rec in cycles}", ga0.loc)
     # (e) edge rewriting
     # the rewrite loop iterates a snapshot of self.dependencies: `for e in list(self.dependencies)` or a local
-    # bound to such a snapshot; it is the loop that removes its own element from self.dependencies
-    ga_binds: Dict[str, List[Tuple[ast.AST, ast.stmt]]] = {}
-    for n, v, st in name_stores(ga.node):
-        if v is not None:
-            ga_binds.setdefault(n, []).append((v, st))
+    # bound to such a snapshot; it is the loop that removes the visited element from self.dependencies
+    def _is_deps(e):
+        return resolved_dotted(ga.node, e, gab) == "self.dependencies"
+
+    def _is_snapshot(e):
+        if isinstance(e, ast.Call) and (call_name(e) or "") in _COPY and e.args and _is_deps(e.args[0]):
+            return True
+        return isinstance(e, ast.Call) and isinstance(e.func, ast.Attribute) and e.func.attr == "copy" and not e.args and _is_deps(e.func.value)
 
     def _snapshot_stmt(loop: ast.For):
-        """statement that reads self.dependencies for this loop (the loop itself or the binding of its iterable)"""
-        if any(dotted(x) == "self.dependencies" for x in ast.walk(loop.iter)):
+        """statement that copies self.dependencies for this loop (the loop itself or the binding of its iterable)"""
+        if _is_snapshot(loop.iter):
             return loop
-        names = [x.id for x in ast.walk(loop.iter) if isinstance(x, ast.Name)]
-        for nm in names:
-            bs = ga_binds.get(nm, [])
-            if len(bs) == 1 and any(dotted(x) == "self.dependencies" for x in ast.walk(bs[0][0])):
+        if isinstance(loop.iter, ast.Name):
+            bs = gab.get(loop.iter.id, [])
+            if len(bs) == 1 and bs[0][0] is not None and _is_snapshot(bs[0][0]):
                 return bs[0][1]
         return None
 
+    pm_ga = parent_map(ga.node)
     loops = []
     for n in walk_local(ga.node):
-        if isinstance(n, ast.For) and isinstance(n.target, ast.Name) and _snapshot_stmt(n) is not None and any(
-                (call_name(c) or "") == "self.dependencies.remove" and c.args and unparse(c.args[0]) == n.target.id
-                for c in calls_in(n)):
-            loops.append(n)
+        if isinstance(n, ast.For) and _snapshot_stmt(n) is not None:
+            rw = _Rewrite(ctx, ga, g_ga, pm_ga, gab, n, cyc_names, conv)
+            if rw.remove_nodes():
+                loops.append(rw)
     ctx.require(len(loops) == 1, f"_generate_actions has {len(loops)} loops that rewrite a snapshot of self.dependencies (expected 1)")
-    lp = loops[0]
-    ev = lp.target.id
+    rw = loops[0]
+    lp = rw.lp
     snap = _snapshot_stmt(lp)
     # (e0) the snapshot is taken after the per-object actions were generated: per_state_flush_actions() itself
     # registers edges that point at aggregate actions of the cycle, they must be rewritten too
-    g_ga = ctx.cfg(ga)
     conv_calls = calls_named(ga.node, "per_state_flush_actions")
     ctx.require(conv_calls, "_generate_actions does not call per_state_flush_actions")
     conv_nodes = sorted({i for c in conv_calls for i in g_ga.nodes_containing(c)})
@@ -635,9 +938,9 @@ def r3(ctx):
         w_before = w_before or g_ga.always_preceded(sn, conv_nodes)
     later = sorted((set(conv_nodes) & g_ga.reachable(snap_nodes)) - set(snap_nodes))
     if not registering:
-        ctx.ok(f"{ga.key}:rewrite-after-convert", "no per_state_flush_actions() registers dependency edges: order is immaterial")
+        ctx.ok(f"{ga0.key}:rewrite-after-convert", "no per_state_flush_actions() registers dependency edges: order is immaterial")
     else:
-        ctx.check(w_before is None and not later, f"{ga.key}:rewrite-after-convert",
+        ctx.check(w_before is None and not later, f"{ga0.key}:rewrite-after-convert",
                   f"the edges to rewrite are read from self.dependencies (`{unparse(snap).splitlines()[0][:70]}`, line {snap.lineno}) "
                   f"{'before' if w_before is not None else 'while'} the per-object actions are generated: {', '.join(registering)} add edges "
                   "that point at aggregate actions of the cycle (e.g. per-object save -> aggregate delete); they are missing from "
@@ -645,41 +948,55 @@ def r3(ctx):
                   "longer ordered before the deletes of the same mapper in cycle mode)",
                   f"snapshot of self.dependencies (line {snap.lineno}) is dominated by the per_state_flush_actions() conversion; "
                   f"edges registered there by {', '.join(registering)} are rewritten",
-                  ga.loc, w_before)
+                  ga0.loc, w_before)
+    # the visited edge leaves self.dependencies whenever an end is a cycle member; with exactly one end in a cycle it
+    # is replaced by edges from/to every per-object action of that end.  Decided on the CFG of one iteration with
+    # the membership conditions fixed (shape of the if/elif chain, early `continue`, unpacked endpoints are immaterial)
+    removes = rw.remove_nodes()
+    head, starts = rw.head(), rw.starts()
+    sites = rw.add_sites() if conv is not None else []
     found = {0: False, 1: False}
-    removed_both = False
-    for n in ast.walk(lp):
-        if not isinstance(n, ast.If):
-            continue
-        t = n.test
-        for i in (0, 1):
-            if (isinstance(t, ast.Compare) and len(t.ops) == 1 and isinstance(t.ops[0], ast.In)
-                    and _sub_is(t.left, ev, i) and unparse(t.comparators[0]) in cyc_names):
-                rm = any((call_name(c) or "") == "self.dependencies.remove" and unparse(c.args[0]) == ev for c in calls_in(ast.Module(body=n.body, type_ignores=[])))
-                for fr in n.body:
-                    if (isinstance(fr, ast.For) and isinstance(fr.target, ast.Name) and isinstance(fr.iter, ast.Subscript)
-                            and conv is not None and unparse(fr.iter.value) == conv and _sub_is(fr.iter.slice, ev, i)):
-                        for c in calls_in(fr):
-                            if (call_name(c) or "") == "self.dependencies.add" and c.args and isinstance(c.args[0], ast.Tuple) and len(c.args[0].elts) == 2:
-                                e = c.args[0].elts
-                                if isinstance(e[i], ast.Name) and e[i].id == fr.target.id and _sub_is(e[1 - i], ev, 1 - i):
-                                    found[i] = found[i] or rm
-        for c in calls_in(t):
-            if (call_name(c) or "").endswith(".issuperset") and unparse(c.args[0]) == ev and unparse(c.func.value) in cyc_names:
-                removed_both = True
-    ctx.check(found[0] and found[1] and removed_both, f"{ga.key}:edge-rewrite",
+    stays = {}
+    for A in ((True, False), (False, True), (True, True)):
+        r = g_ga.reachable(starts, avoid=removes, edge_ok=rw.edge_ok(A))
+        stays[A] = head in r or g_ga.exit in r   # an iteration can end without removing the edge
+    for i in (0, 1):
+        A = (i == 0, i == 1)
+        others = [(False, False), (i != 0, i != 1)]
+        for side, nodes in sites:
+            if side != i:
+                continue
+            reach = bool(set(nodes) & g_ga.reachable(starts, edge_ok=rw.edge_ok(A)))
+            leak = any(set(nodes) & g_ga.reachable(starts, edge_ok=rw.edge_ok(B)) for B in others)
+            if reach and not leak and not stays[A]:
+                found[i] = True
+    removed_both = not stays[(True, True)]
+    ctx.check(found[0] and found[1] and removed_both, f"{ga0.key}:edge-rewrite",
               f"edges with one end in a cycle are not replaced by edges to every per-object action "
               f"(source side: {found[0]}, target side: {found[1]}, both-in-cycle removed: {removed_both})",
-              "edge[0] in cycles -> (dep, edge[1]) for dep in convert[edge[0]]; symmetric; intra-cycle edges removed", ga.loc)
+              "edge[0] in cycles -> (dep, edge[1]) for dep in convert[edge[0]]; symmetric; intra-cycle edges removed", ga0.loc)
     # (f) returned action set excludes the converted aggregate actions
     rets = [r for r in walk_local(ga.node) if isinstance(r, ast.Return) and r.value is not None]
-    ok_ret = rets and all(
-        isinstance(r.value, ast.Call) and isinstance(r.value.func, ast.Attribute) and r.value.func.attr == "difference"
-        and r.value.args and unparse(r.value.args[0]) in cyc_names and "self.postsort_actions" in unparse(r.value.func.value)
-        for r in rets
-    )
-    ctx.check(bool(ok_ret), f"{ga.key}:returns", "returned actions are not `postsort actions minus cycles`",
-              "returns enabled postsort actions minus cycle members", ga.loc)
+
+    def _minus_cycles(v):
+        v = resolve_alias(ga.node, v, gab)
+        left = None
+        if isinstance(v, ast.Call) and isinstance(v.func, ast.Attribute) and v.func.attr == "difference" and len(v.args) == 1 \
+                and (dotted(v.args[0]) or "") in cyc_names:
+            left = v.func.value
+        elif isinstance(v, ast.BinOp) and isinstance(v.op, ast.Sub) and (dotted(v.right) or "") in cyc_names:
+            left = v.left
+        elif isinstance(v, (ast.SetComp, ast.ListComp)) and len(v.generators) == 1:
+            # {a for a in <actions> if not a.disabled and a not in cycles}
+            tv = unparse(v.generators[0].target)
+            atoms = [x for t in v.generators[0].ifs for x in test_atoms(t, True)]
+            if any(pol is False and a.replace(" ", "") in {f"{tv}in{c}" for c in cyc_names} for a, pol in atoms):
+                left = v.generators[0].iter
+        return left is not None and any("self.postsort_actions" in unparse(e) for e in _feeds(ga.node, left, gab))
+
+    ok_ret = bool(rets) and all(_minus_cycles(r.value) for r in rets)
+    ctx.check(bool(ok_ret), f"{ga0.key}:returns", "returned actions are not `postsort actions minus cycles`",
+              "returns enabled postsort actions minus cycle members", ga0.loc)
 
 
 def _callers(ctx, modules, callee_short: str, callee_prefix=None):
